@@ -20,11 +20,44 @@ def invalid_graph(draw, case):
     case = copy.deepcopy(case)
     prog = case['program']
     kind = draw(st.sampled_from(['dangling', 'cycle1', 'cycle2', 'cyclek', 'ambiguous', 'excluded-target', 'foreign',
-                                 'foreign']))
+                                 'foreign', 'class-namesake']))
     tasks = _concrete(case)
     mi, ti = draw(st.sampled_from(tasks))
     t = prog['modules'][mi]['tasks'][ti]
-    if kind == 'foreign':
+    if kind == 'class-namesake':
+        # an input given BY CLASS (also as InputTaskParameter(Class), required or optional) whose own task is excluded
+        # from the chain while a namesake in another group (x vs g:x) is present: a class stands for exactly its task
+        pairs = []
+        for (a, b) in tasks:
+            u = prog['modules'][a]['tasks'][b]
+            if any((a2, b2) != (a, b) and a2 == a and prog['modules'][a2]['tasks'][b2]['name'] == u['name'] for (a2, b2) in tasks):
+                pairs.append((a, b))
+        users = [(mi_, ti_) for (mi_, ti_) in tasks]
+        if not pairs:
+            return _dangling(case, draw)
+        a, b = draw(st.sampled_from(pairs))
+        later = [(mi_, ti_) for (mi_, ti_) in users if mi_ == a and ti_ > b
+                 and prog['modules'][mi_]['tasks'][ti_]['name'] != prog['modules'][a]['tasks'][b]['name']]
+        if not later:
+            return _dangling(case, draw)
+        mi, ti = draw(st.sampled_from(later))
+        t = prog['modules'][mi]['tasks'][ti]
+        t['inputs'] = [i for i in t['inputs'] if not (i.get('mod') == a and i.get('task') == b)]
+        optional = draw(st.booleans())
+        inp = {'form': 'class', 'mod': a, 'task': b, 'rel': '', 'optional': optional, 'via_param': draw(st.booleans())}
+        if optional:
+            inp['default'] = None
+        else:
+            inp['itp'] = draw(st.booleans())
+            inp['via_param'] = inp['via_param'] and inp['itp']
+        t['inputs'].append(inp)
+        t['style'] = 'index' if t['style'] == 'args' else t['style']
+        cls = prog['modules'][a]['tasks'][b]['cls']
+        for fi_, pn_, nd_ in _all_nodes(case):
+            if nd_['module'] == a:
+                nd_['tasks_how'] = 'list+excl'
+                nd_['excluded'] = sorted(set(nd_.get('excluded', [])) | {cls})
+    elif kind == 'foreign':
         # an input named like a task that exists in the program - but perhaps only in ANOTHER namespace than the
         # declaring task's (then it is dangling: inputs are resolved inside the declaring task's own namespace), or
         # downstream of it (a cycle), or it is simply one more edge; the reference model says which
